@@ -1,7 +1,9 @@
 (* C18: per-run side conditions on the tables generated from anf.py: every visit_<Node> method
    dispatches the way the hand model assumes (strict / trivial-only / rejected), the default
    configuration is (ANY, ANY, (Constant, Name)) LEAVE ; (ANY, ANY, expr) REPLACE, keyword /
-   Starred / withitem are transparent wrappers, and the gensym is stem "tmp_" from 1000. *)
+   Starred / withitem are transparent wrappers, the gensym is stem "tmp_" from 1000, and the classes
+   _is_trivial never hoists are reads of variables, non-node field values, operator tokens and
+   expression contexts only (no node kind whose evaluation is an effect). *)
 From Coq Require Import List String Bool.
 Import ListNotations.
 Require Import MV.Anf.Anf MV.Generated.C18_gen.
@@ -9,6 +11,6 @@ Local Open Scope string_scope.
 
 Theorem tables_ok :
   table_ok visit_table = true /\ default_rules_ok default_rules_gen = true /\ wrappers_ok wrappers_gen = true
-  /\ gensym_stem_gen = "tmp_" /\ gensym_base_gen = 1000.
+  /\ gensym_stem_gen = "tmp_" /\ gensym_base_gen = 1000 /\ trivial_ok trivial_types_gen = true.
 Proof. vm_compute. repeat split; reflexivity. Qed.
 Print Assumptions tables_ok.
